@@ -992,5 +992,5 @@ static void one_case(vh::Ctx & c, uint64_t idx)
 
 int main(int argc, char ** argv)
 {
-  return vh::run(argc, argv, "C20", {200000, 50000000}, one_case);
+  return vh::run(argc, argv, "C20", {1000000, 50000000}, one_case);
 }
